@@ -11,3 +11,4 @@ PROPERTY TerminateOnce
 ACTION_CONSTRAINT Cover
 POSTCONDITION ExportDone
 CHECK_DEADLOCK FALSE
+PROPERTY NothingAfterTerminate
